@@ -753,6 +753,7 @@ package kcp
 //@   modifies nothing
 //
 //@ func UDPSession.kcpInput counted
+//@   callsite fecDecoder.decode requires @C16 @C07 [packets-are-decoded-by-the-sessions-own-decoder-which-persists-across-calls] arg_dec == s.fecDecoder
 //@   requires s.imm() && 12 <= len(data) && len(data) <= 1500
 //@   requires @C06 [integrity-gate] gate(s.block, data)
 //@   modifies everything
@@ -966,6 +967,7 @@ package kcp
 //@ immutable blockCrypt.encbuf blockCrypt.decbuf blockCrypt.block blockCrypt.decBlock blockCrypt.blockSize
 //@ constructor newBlockCrypt NewSM4BlockCrypt
 //@ pred bcinv(c *blockCrypt) = c.block != nil && c.decBlock != nil && blocksize(c.decBlock) == blocksize(c.block) && (blocksize(c.block) == 8 || blocksize(c.block) == 16) && len(c.encbuf) >= blocksize(c.block) && len(c.decbuf) >= 2 * blocksize(c.block)
+//@      && ref(c.encbuf) != ref(c.decbuf)
 //@ func encrypt
 //@   requires len(dst) >= len(src) && block != nil && (blocksize(block) == 8 || blocksize(block) == 16) && len(buf) >= blocksize(block)
 //@   modifies dst[..], buf[..]
@@ -988,7 +990,7 @@ package kcp
 //@   ensures @C08 [wrapper-16] blocksize(c.decBlock) == 16 ==> cfbdec(c.decBlock, dst, src, 16)
 //@ func newBlockCrypt
 //@   requires block != nil && (blocksize(block) == 8 || blocksize(block) == 16)
-//@   ensures @C08 [establishes-bcinv] typeis(result, ptr_blockCrypt) && bcinv(unboxptr(result, blockCrypt))
+//@   ensures @C08 @C14 [establishes-bcinv] typeis(result, ptr_blockCrypt) && bcinv(unboxptr(result, blockCrypt))
 
 // ===================================================================================
 // C14 — lock-guard discipline. Every field of the shared structs is classified; the engine
